@@ -77,13 +77,21 @@ def random_config(rng, force=None):
     return cfg
 
 
+def _trailer(rng, f):
+    """now and then the frame is longer than the IPv4 total-length field says (link-layer padding, trailers): the tunnel carries frames, not
+    what it believes the IP packet to be"""
+    if rng.random() < 0.15:
+        return f + bytes(rng.randrange(256) for _ in range(rng.choice([1, 2, 18, 40])))
+    return f
+
+
 def frame_to_server_side(rng, n):
     """a packet a client application sends out through the tunnel (server writes it to its tun)"""
-    return C.ip_packet(0x08080808, bytes(rng.randrange(256) for _ in range(n)), src_ip=CLIENT_TUN_IP, ident=rng.randrange(1 << 16))
+    return _trailer(rng, C.ip_packet(0x08080808, bytes(rng.randrange(256) for _ in range(n)), src_ip=CLIENT_TUN_IP, ident=rng.randrange(1 << 16)))
 
 
 def frame_to_client(rng, n):
-    return C.ip_packet(CLIENT_TUN_IP, bytes(rng.randrange(256) for _ in range(n)), src_ip=0x08080808, ident=rng.randrange(1 << 16))
+    return _trailer(rng, C.ip_packet(CLIENT_TUN_IP, bytes(rng.randrange(256) for _ in range(n)), src_ip=0x08080808, ident=rng.randrange(1 << 16)))
 
 
 SIZES = [0, 1, 20, 100, 600, 1400, 3000, 9000]
